@@ -77,7 +77,9 @@ Qed.
 (* ---------- static facts about handlers ---------- *)
 Definition pkind (p : rparam) : option (bool * query) := match p with RRecvT _ q _ => Some (true, q) | RFetch _ q _ => Some (false, q) | _ => None end.
 Definition pks (h : hinfo) : list (option (bool * query)) := map pkind (h_params h).
-Definition hview3 (h : hinfo) := (hstat h, pks h).
+Definition psend (p : rparam) : option (list (N * N) * list (N * N)) := match p with RSender g t => Some (g, t) | _ => None end.
+Definition pss (h : hinfo) := map psend (h_params h).
+Definition hview3 (h : hinfo) := (hstat h, pks h, pss h).
 Definition hv3 (w : world) := sview hview3 (w_hs w).
 
 (* the filter of a handler implies each of its targeted-receiver queries; a handler of a global event has no targeted receiver *)
@@ -109,20 +111,24 @@ Lemma pks_refresh ai a h : pks (h_refresh ai a h) = pks h.
 Proof. unfold pks, h_refresh. cbn [h_params set_params]. rewrite map_map. apply map_ext. intros p. destruct p; cbn [param_refresh pkind]; try reflexivity; destruct (arch_state (arch_has a) q); reflexivity. Qed.
 Lemma pks_remove ai h : pks (h_remove_arch ai h) = pks h.
 Proof. unfold pks, h_remove_arch. cbn [h_params set_params]. rewrite map_map. apply map_ext. intros p. destruct p; reflexivity. Qed.
+Lemma pss_refresh ai a h : pss (h_refresh ai a h) = pss h.
+Proof. unfold pss, h_refresh. cbn [h_params set_params]. rewrite map_map. apply map_ext. intros p. destruct p; cbn [param_refresh psend]; try reflexivity; destruct (arch_state (arch_has a) q); reflexivity. Qed.
+Lemma pss_remove ai h : pss (h_remove_arch ai h) = pss h.
+Proof. unfold pss, h_remove_arch. cbn [h_params set_params]. rewrite map_map. apply map_ext. intros p. destruct p; reflexivity. Qed.
 Lemma hview3_register ai a h : hview3 (snd (register_handler ai a h)) = hview3 h.
 Proof.
-  unfold hview3. rewrite hstat_register. f_equal. unfold pks. rewrite reg_params. destruct (_ && _); [|reflexivity].
-  rewrite map_map. apply map_ext. intros p. destruct p; cbn [param_refresh pkind]; try reflexivity; destruct (arch_state (arch_has a) q); reflexivity.
+  unfold hview3. rewrite hstat_register. f_equal; [f_equal|]; unfold pks, pss; rewrite reg_params; (destruct (_ && _); [|reflexivity]);
+  rewrite map_map; apply map_ext; intros p; destruct p; cbn [param_refresh pkind psend]; try reflexivity; destruct (arch_state (arch_has a) q); reflexivity.
 Qed.
 
 Lemma hv3_notify_refresh w ai : hv3 (notify_refresh w ai) = hv3 w.
 Proof.
   unfold hv3, notify_refresh. destruct (slab_get (w_archs w) ai) as [a|]; [|reflexivity]. cbn [w_hs set_hs].
-  apply (sview_fold_upd_key hview3 (fun _ => h_refresh ai a)). intros k v. unfold hview3. now rewrite hstat_refresh, pks_refresh.
+  apply (sview_fold_upd_key hview3 (fun _ => h_refresh ai a)). intros k v. unfold hview3. now rewrite hstat_refresh, pks_refresh, pss_refresh.
 Qed.
 Lemma hv3_notify_remove_with w ai a : hv3 (notify_remove_with w ai a) = hv3 w.
 Proof.
-  unfold hv3, notify_remove_with. cbn [w_hs set_hs]. apply (sview_fold_upd_key hview3 (fun _ => h_remove_arch ai)). intros k v. unfold hview3. now rewrite hstat_remove_arch, pks_remove.
+  unfold hv3, notify_remove_with. cbn [w_hs set_hs]. apply (sview_fold_upd_key hview3 (fun _ => h_remove_arch ai)). intros k v. unfold hview3. now rewrite hstat_remove_arch, pks_remove, pss_remove.
 Qed.
 Lemma hv3_reg_fold ai l : forall a hs, sview hview3 (snd (fold_left (reg_step ai) l (a, hs))) = sview hview3 hs.
 Proof.
